@@ -45,13 +45,13 @@ RULE = ('corpus + directed prefix (every type x {typical value, None, class leve
         '0/1/999999, date-only and datetime ranges, big ints, extreme floats, empty containers, nested tuples, non-string '
         'keys) + random classes of 1-5 parameters over all 17 types with values accepted by the real Parameter; '
         'the state, the json.loads tree, strict-JSON flag, deserialize_parameters result, rebuilt object, per-parameter '
-        'serialize_value/deserialize_value, the subset= variants, and a second deserialization of the same text after the first result (and the object rebuilt from it) had its lists/dicts edited in place (equal to the state again, no shared container objects) are compared with the model and checked by the oracle. '
+        'serialize_value/deserialize_value, the subset= variants (text produced with the subset, and the full text read back with the subset), one fifth of the cases reach their final declaration through serialize -> Cls.param.add_parameter (new parameters, or a String replaced by another type) -> serialize, and a second deserialization of the same text after the first result (and the object rebuilt from it) had its lists/dicts edited in place (equal to the state again, no shared container objects) are compared with the model and checked by the oracle. '
         'non-trivial = oracle applicable and at least one non-name parameter with a non-None value; distinct = distinct canonical case')
 COVERAGE_TARGETS = [f'{t}:value' for t in G.TYPES15 if t not in ('DateRange', 'CalendarDateRange')] + \
                    [f'{t}:none' for t in ('Number', 'String', 'Boolean', 'Tuple', 'Range', 'Date', 'CalendarDate',
                                           'DateRange', 'CalendarDateRange', 'Selector', 'ListSelector', 'Color')] + \
                    ['DateRange:dates', 'DateRange:datetimes', 'CalendarDateRange:dates', 'year<1000',
-                    'non-native-element', 'non-finite', 'level:class', 'level:instance', 'subset']
+                    'non-native-element', 'non-finite', 'level:class', 'level:instance', 'subset', 'history:add_parameter']
 
 
 def _vals(obj, names):
@@ -175,6 +175,12 @@ def run_impl(case):
         again['per_value'] = pv2
         out['again'] = again
         out['sub_ser'], _, out['sub_deser'], _ = roundtrip(subset)
+        # the full text read back with the narrower subset
+        if text_all[0] is None:
+            out['narrow_deser'] = {'err': 'noser'}
+        else:
+            out['narrow_deser'] = _res(lambda: [[k, enc_val(v)] for k, v in
+                                                cls.param.deserialize_parameters(text_all[0], subset=subset).items()])
         return out
     except G.Unsupported as e:
         return {'crash': f'adapter cannot encode: {e}'}
@@ -272,6 +278,13 @@ def directed():
     yield G.mk_case(ps, vals, 'instance', None, None)
     yield G.mk_case(ps, vals, 'instance', None, ['p1', 'p3', 'p7'])
     yield G.mk_case(ps, vals, 'class', None, ['p0', 'p2'])
+    # histories: serialize, then add / replace parameters with add_parameter, then serialize again
+    full = G.mk_case(ps, vals, 'instance', None, ['p1', 'p3', 'p7'])
+    old = lambda n: [n, {'name': n, 'type': 'String', 'allow_None': None, 'default': enc_val('x'), 'doc': None, 'label': 'old'}]
+    yield G.with_history(full, ['p7'], [])
+    yield G.with_history(full, ['p1', 'p6'], [old('p3')])
+    yield G.with_history(G.mk_case(ps, vals, 'class', None, ['p0', 'p1']), ['p0'], [old('p1')])
+    yield G.with_history(G.mk_case(ps, vals, 'instance', None, None), [], [old('p1'), old('p0')])
 
 
 def cases(rng, tier, worker, nworkers):
@@ -284,13 +297,18 @@ def cases(rng, tier, worker, nworkers):
     opts_clean = {'nonfinite': 0.02, 'exotic': 0.0, 'small_year': 0.15}
     opts_all = {'nonfinite': 0.03, 'exotic': 0.12, 'small_year': 0.3, 'findings': True}
     for i in range(n_random):
-        yield G.gen_case(rng, param, G.TYPES15, opts_clean if i % 3 else opts_all)
+        c = G.gen_case(rng, param, G.TYPES15, opts_clean if i % 3 else opts_all)
+        if i % 5 == 2:
+            c = G.gen_history(rng, c)
+        yield c
 
 
 def tags(case, impl):
     t = ['level:' + case['level'], f'nparams={len(case["params"]) - 1}']
     if case.get('subset') is not None:
         t.append('subset')
+    if case.get('added') or case.get('replaced'):
+        t.append('history:add_parameter')
     for d in case['params'][1:]:
         t.append('type:' + d['type'])
     if isinstance(impl, dict) and impl.get('invalid'):
